@@ -79,6 +79,7 @@ pub fn case(ctx: &Ctx, shard: usize, index: u64, rep: &mut Report) {
     let describe = || format!("{} sequence {} sizes up to {}x{}, {} bytes: {}", flavour.name(), kinds, w, h, all.len(), hex(&all[..all.len().min(40)]));
     let mut shared = Dec::new(sorenson, false);
     let mut twin = Dec::new(sorenson, false);
+    twin.chunk = *rng.pick(&[usize::MAX, usize::MAX, 1, 5, 300]);
     let (src, _data, delivered) = CountRead::new(&all);
     // the source hands out at most `chunk` bytes per read call
     let chunk = *rng.pick(&[usize::MAX, usize::MAX, 1, 2, 3, 7, 64, 4096]);
